@@ -236,10 +236,6 @@ where
     }
 
     fn solve(&mut self, timeout: Duration) -> Result<Path<S>, PlanningError> {
-        let mut rng = self
-            .rng
-            .take()
-            .unwrap_or_else(|| Box::new(StdRng::from_os_rng()));
         let start_time = Instant::now();
         #[cfg(feature = "verif")]
         let start_time = crate::verif::VirtualInstant::now();
@@ -258,20 +254,33 @@ where
             return Err(PlanningError::InvalidStartState);
         }
 
+        // Taken only once nothing can fail any more; handed back after the loop so that a later
+        // `solve` continues the seeded stream.
+        let mut rng = self
+            .rng
+            .take()
+            .unwrap_or_else(|| Box::new(StdRng::from_os_rng()));
+
         // The goal tree must be rooted at a valid goal state: resample the root until the
         // validity checker accepts it or the time runs out.
+        let mut root_ok = true;
         while self.goal_tree.len() == 1 && !vc.is_valid(&self.goal_tree[0].state) {
             if start_time.elapsed() > timeout {
-                return Err(PlanningError::Timeout);
+                root_ok = false;
+                break;
             }
             self.goal_tree[0].state = goal.sample_goal(&mut rng).unwrap();
         }
 
         // Main loop
-        loop {
+        let result = loop {
+            if !root_ok {
+                break Err(PlanningError::Timeout);
+            }
+
             // 1. Check for timeout
             if start_time.elapsed() > timeout {
-                return Err(PlanningError::Timeout);
+                break Err(PlanningError::Timeout);
             }
 
             // 2. Determine which tree to grow (tree_a) and which to connect to (tree_b). This
@@ -300,7 +309,7 @@ where
                 // If growing the start tree, check if the new node is already in the goal.
                 if is_growing_start_tree && goal.is_satisfied(q_new) {
                     println!("Solution found by start tree reaching goal directly.");
-                    return Ok(self.reconstruct_path(&self.start_tree, new_node_idx_a));
+                    break Ok(self.reconstruct_path(&self.start_tree, new_node_idx_a));
                 }
 
                 // 5. Try to connect tree_b to the new state `q_new`.
@@ -331,11 +340,13 @@ where
                         // connection point) to the start path.
                         start_path.extend(goal_path.into_iter().skip(1));
 
-                        return Ok(Path(start_path));
+                        break Ok(Path(start_path));
                     }
                 }
             }
-        }
+        };
+        self.rng = Some(rng);
+        result
     }
 }
 
